@@ -58,6 +58,10 @@ def run(ctx) -> None:
     ctx.reuse("C01.composition", c05.mix_formula)
     ctx.reuse("C01.composition", c05.local_write)
     ctx.reuse("C01.composition", c05.owner)
+    # the liquid of an initially filled well is known by that well's component (and of no other well), and what is read out for a
+    # transfer is the stored mixture without a tolerance
+    ctx.reuse("C01.composition", c05.default_name)
+    ctx.reuse("C01.composition", c05.read_exact)
 
 
 # ------------------------------------------------------------------------ aspirate / dispense
@@ -265,7 +269,17 @@ def pair_transfer(ctx, dev, rule: str = "C01.pair-transfer") -> None:
                 okc = same(call.args[0], s)
         # the lookup must happen at the dispense (after the aspirate of this step, before the add): no caching
         raw_calls = [x for x in own_walk(comp) if isinstance(x, ast.Call) and call_fname(x) == "get_well_composition"]
-        if okc and not raw_calls:
+        fresh = False
+        if okc and not raw_calls and isinstance(comp, ast.List) and len(comp.elts) == 1 and isinstance(comp.elts[0], ast.Name):
+            # looked up into a local in the same iteration (nothing of this step's block writes a composition before the dispense)
+            defs_ = sorted(fv.cfg.reaching()[D.node].get(comp.elts[0].id, ()))
+            inner_ = [h for h in fv.cfg.enclosing_loops(D.node) if fv.cfg.nodes[h].kind == "for"]
+            if len(defs_) == 1 and inner_:
+                body_ = min((fv.cfg.loop_body[h] for h in inner_), key=len)
+                dn_ = fv.cfg.nodes[defs_[0]]
+                fresh = defs_[0] in body_ and fv.cfg.dominates(defs_[0], D.node) and dn_.kind == "stmt" and isinstance(dn_.ast, ast.Assign) and isinstance(dn_.ast.value, ast.Call) \
+                    and call_fname(dn_.ast.value) == "get_well_composition"
+        if okc and not raw_calls and not fresh:
             okc = False
             detail = "composition is looked up earlier than the dispense of this step (cached): stale when a well is both destination and later source"
     ctx.rep.check(okc, rule, f"{cbase}/composition", "compositions=[source.get_well_composition(<aspirated well>)] evaluated at the dispense",
